@@ -737,3 +737,327 @@ Proof.
     destruct (outcomes s id) as [|o [|o' l]]; simpl in OL; try lia.
     rewrite cnt_cons, cnt_nil in OT. destruct o as [a|]; simpl in OT; [lia | reflexivity].
 Qed.
+
+(** ** the peer: one reply per event, and it is the first call of the ack function *)
+Definition fstis {B} (id : nat) (x : nat * B) : bool := Nat.eqb (fst x) id.
+Definition psents (s : state) : list bool := map e_psent (st_emits s).
+
+Definition inv3 (s : state) : Prop :=
+  (forall id b, nth_error (psents s) id = Some b ->
+      cnt (fstis id) (st_psent s) = b2n b /\ (b = false -> first_call (st_plog s) id = None))
+  /\ (forall id, length (psents s) <= id -> cnt (fstis id) (st_psent s) = 0)
+  /\ (forall id a, In (id, a) (st_psent s) -> first_call (st_plog s) id = Some a)
+  /\ (forall x, In x (st_inflight s) -> In x (st_psent s)).
+
+Lemma inv3_same s s' :
+  inv3 s -> psents s' = psents s -> st_psent s' = st_psent s -> st_plog s' = st_plog s ->
+  st_inflight s' = st_inflight s -> inv3 s'.
+Proof. unfold inv3. intros H A B C D. rewrite A, B, C, D. exact H. Qed.
+
+Lemma inv3_append s s' :
+  inv3 s -> psents s' = psents s ++ [false] -> st_psent s' = st_psent s -> st_plog s' = st_plog s ->
+  st_inflight s' = st_inflight s ->
+  (forall id, length (psents s) <= id -> first_call (st_plog s) id = None) -> inv3 s'.
+Proof.
+  unfold inv3. intros (P1 & P2 & P3 & P4) A B C D Hfc. rewrite A, B, C, D.
+  split; [|split; [|split; assumption]].
+  - intros id b Hn. destruct (Nat.lt_ge_cases id (length (psents s))) as [L|L].
+    + rewrite nth_error_app1 in Hn by exact L. now apply P1.
+    + rewrite nth_error_app2 in Hn by exact L.
+      destruct (id - length (psents s)) as [|[|n]]; simpl in Hn; try discriminate.
+      inversion Hn; subst. split; [now apply P2 | intros _; now apply Hfc].
+  - intros id L. rewrite app_length in L. simpl in L. apply P2. lia.
+Qed.
+
+Lemma map_put_same {B} (f : emit -> B) s id e e' :
+  get_emit s id = Some e -> f e' = f e -> map f (upd_nth id e' (st_emits s)) = map f (st_emits s).
+Proof. intros G T. rewrite map_upd_nth, T. apply upd_nth_id. now apply map_nth_error. Qed.
+
+Lemma first_call_snoc pl i a id :
+  first_call (pl ++ [(i, a)]) id =
+  match first_call pl id with Some x => Some x | None => if Nat.eqb i id then Some a else None end.
+Proof.
+  induction pl as [|[j b] pl IH]; simpl; [reflexivity|]. destruct (Nat.eqb j id); [reflexivity | exact IH].
+Qed.
+
+Lemma in_del_nth {A} k (l : list A) x : In x (del_nth k l) -> In x l.
+Proof.
+  revert k; induction l as [|z l IH]; intros [|k] H; simpl in *; auto. destruct H; auto. right. eapply IH; eauto.
+Qed.
+
+Lemma in_upd_nth {A} k (y : A) l x : In x (upd_nth k y l) -> x = y \/ In x l.
+Proof.
+  revert k; induction l as [|z l IH]; intros [|k] H; simpl in *; auto.
+  - destruct H; auto.
+  - destruct H; auto. destruct (IH k H); auto.
+Qed.
+
+(** an ack function is only ever called for an allocated id: plog mentions allocated ids only *)
+Definition inv3b (s : state) : Prop :=
+  forall id, length (st_emits s) <= id -> first_call (st_plog s) id = None.
+
+Lemma first_call_none_snoc pl i a id :
+  first_call pl id = None -> i <> id -> first_call (pl ++ [(i, a)]) id = None.
+Proof. intros H N. rewrite first_call_snoc, H. now rewrite (eqb_neq_false _ _ N). Qed.
+
+Ltac same3 G := eapply inv3_same;
+  [eassumption | unfold psents at 1; simpl; try (eapply map_put_same; [exact G | reflexivity]); reflexivity
+   | reflexivity | reflexivity | reflexivity].
+
+Lemma inv3_step s l s' : inv3 s /\ inv3b s -> step l s = Some s' -> inv3 s' /\ inv3b s'.
+Proof.
+  intros [HI HB] Hs.
+  destruct l as [tmo natt|natt| |id|id|id a|k|id a|k dk| | ]; simpl in Hs.
+  - inversion Hs; subst; clear Hs. split.
+    + eapply inv3_append; [exact HI | | reflexivity | reflexivity | reflexivity |].
+      * unfold psents; simpl. rewrite map_app. destruct tmo; reflexivity.
+      * intros id L. apply HB. unfold psents in L. now rewrite map_length in L.
+    + intros id L. simpl in *. rewrite app_length in L. simpl in L. apply HB. lia.
+  - destruct (send_frames s (frames_of None (st_npk s) natt)) as [s1|] eqn:E; [|discriminate].
+    inversion Hs; subst; clear Hs. unfold send_frames in E.
+    destruct (st_conn s || negb (c_client (st_cfg s))); [|destruct (st_bufmu s); [discriminate|]];
+      inversion E; subst; clear E; (split; [eapply inv3_same; [exact HI | reflexivity..] | exact HB]).
+  - inversion Hs; subst; clear Hs. split.
+    + eapply inv3_append; [exact HI | | reflexivity | reflexivity | reflexivity |].
+      * unfold psents; simpl. rewrite map_app. reflexivity.
+      * intros id L. apply HB. unfold psents in L. now rewrite map_length in L.
+    + intros id L. simpl in *. rewrite app_length in L. simpl in L. apply HB. lia.
+  - destruct (get_emit s id) as [e|] eqn:G; [|discriminate].
+    destruct (e_pc e) eqn:P; [| |discriminate].
+    + inversion Hs; subst; clear Hs. split; [same3 G|].
+      intros i L. simpl in *. rewrite length_upd_nth in L. now apply HB.
+    + unfold send_frames in Hs.
+      destruct (st_conn s || negb (c_client (st_cfg s))); [|destruct (st_bufmu s); [discriminate|]];
+        inversion Hs; subst; clear Hs;
+        (split; [same3 G | intros i L; simpl in *; rewrite length_upd_nth in L; now apply HB]).
+  - destruct (get_emit s id) as [e|] eqn:G; [|discriminate].
+    assert (HBk : forall e', inv3b (put_emit s id e')).
+    { intros e' i L. unfold put_emit in L. simpl in *. rewrite length_upd_nth in L. now apply HB. }
+    destruct (e_timer e) eqn:T; try discriminate.
+    + destruct (e_called e); inversion Hs; subst; clear Hs; (split; [same3 G | apply HBk]).
+    + inversion Hs; subst; clear Hs. split; [same3 G | apply HBk].
+    + destruct (st_bufmu s); [discriminate|]. inversion Hs; subst; clear Hs.
+      split; [same3 G | apply (HBk (set_timer e TPurge))].
+    + destruct (c_oldpurge (st_cfg s)); [destruct (purge_old id (st_buf s))|]; inversion Hs; subst; clear Hs;
+        (split; [same3 G | first [apply HBk | apply (HBk (set_timer e TUnlock))]]).
+    + inversion Hs; subst; clear Hs. split; [same3 G | apply (HBk (set_timer e TInvoke))].
+    + inversion Hs; subst; clear Hs. split; [same3 G | apply (HBk (set_timer e TFired))].
+  - (* LPeerAck *)
+    destruct (get_emit s id) as [e|] eqn:G; [|discriminate].
+    destruct (onwire s id); [|discriminate].
+    pose proof (get_lt _ _ _ G) as L.
+    assert (PG : nth_error (psents s) id = Some (e_psent e)) by (unfold psents; now apply map_nth_error).
+    destruct HI as (P1 & P2 & P3 & P4).
+    destruct (e_psent e) eqn:P; inversion Hs; subst; clear Hs.
+    + (* already sent: only the call is recorded *)
+      split.
+      * split; [|split; [|split]]; simpl.
+        -- intros i b Hn. destruct (P1 i b Hn) as [C1 C2]. split; [exact C1|].
+           intros Hb. specialize (C2 Hb). apply first_call_none_snoc; [exact C2|].
+           intros E; subst. unfold psents in *. simpl in *. congruence.
+        -- exact P2.
+        -- intros i a0 Hin. rewrite first_call_snoc, (P3 i a0 Hin). reflexivity.
+        -- exact P4.
+      * intros i Li. simpl in *. apply first_call_none_snoc; [now apply HB | lia].
+    + (* first call: sent *)
+      destruct (P1 id false PG) as [C1 C2]. specialize (C2 eq_refl).
+      split.
+      * split; [|split; [|split]]; simpl.
+        -- intros i b Hn. unfold psents in Hn. simpl in Hn. rewrite map_upd_nth in Hn. simpl in Hn.
+           rewrite cnt_snoc. unfold fstis at 2. simpl.
+           destruct (Nat.eq_dec i id) as [->|Ne].
+           ++ rewrite nth_upd_same in Hn by (unfold psents in PG; apply nth_some_lt in PG; exact PG).
+              inversion Hn; subst. rewrite Nat.eqb_refl, C1. split; [reflexivity | discriminate].
+           ++ rewrite nth_upd_other in Hn by exact Ne. destruct (P1 i b Hn) as [D1 D2].
+              rewrite (eqb_neq_false id i (not_eq_sym Ne)). simpl. split; [lia|].
+              intros Hb. apply first_call_none_snoc; [now apply D2 | congruence].
+        -- intros i Li. unfold psents in Li. simpl in Li. rewrite map_length, length_upd_nth in Li.
+           rewrite cnt_snoc. unfold fstis at 2. simpl.
+           assert (Ne : id <> i) by lia. rewrite (eqb_neq_false _ _ Ne). simpl.
+           rewrite P2; [reflexivity|]. unfold psents. now rewrite map_length.
+        -- intros i a0 Hin. apply in_app_or in Hin as [Hin|[Hin|[]]].
+           ++ rewrite first_call_snoc, (P3 i a0 Hin). reflexivity.
+           ++ inversion Hin; subst. rewrite first_call_snoc, C2, Nat.eqb_refl. reflexivity.
+        -- intros x Hin. apply in_app_or in Hin as [Hin|Hin]; apply in_or_app; [left; now apply P4 | right; exact Hin].
+      * intros i Li. simpl in *. rewrite length_upd_nth in Li. apply first_call_none_snoc; [now apply HB | lia].
+  - destruct (nth_error (st_inflight s) k) as [[id a]|] eqn:F; [|discriminate].
+    inversion Hs; subst; clear Hs. split; [|exact HB].
+    destruct HI as (P1 & P2 & P3 & P4). split; [exact P1|]. split; [exact P2|]. split; [exact P3|].
+    simpl. intros x Hin. apply P4. eapply in_del_nth; eauto.
+  - inversion Hs; subst; clear Hs. split; [eapply inv3_same; [exact HI | reflexivity..] | exact HB].
+  - destruct (nth_error (st_replies s) k) as [r|] eqn:R; [|discriminate].
+    destruct r as [id a|id a|id a|]; [| | |discriminate].
+    + destruct (get_emit s id) as [e|] eqn:G.
+      * destruct (e_intable e) eqn:IT; inversion Hs; subst; clear Hs.
+        -- split; [same3 G|]. intros i L. simpl in *. rewrite length_upd_nth in L. now apply HB.
+        -- split; [eapply inv3_same; [exact HI | reflexivity..] | exact HB].
+      * inversion Hs; subst; clear Hs. split; [eapply inv3_same; [exact HI | reflexivity..] | exact HB].
+    + destruct (get_emit s id) as [e|] eqn:G.
+      * destruct (e_timedOut e) eqn:TO; inversion Hs; subst; clear Hs.
+        -- split; [eapply inv3_same; [exact HI | reflexivity..] | exact HB].
+        -- split; [same3 G|]. intros i L. simpl in *. rewrite length_upd_nth in L. now apply HB.
+      * inversion Hs; subst; clear Hs. split; [eapply inv3_same; [exact HI | reflexivity..] | exact HB].
+    + inversion Hs; subst; clear Hs. split; [eapply inv3_same; [exact HI | reflexivity..] | exact HB].
+  - destruct (st_conn s); [discriminate|]. destruct (st_bufmu s) eqn:M; [discriminate|].
+    inversion Hs; subst; clear Hs. split; [eapply inv3_same; [exact HI | reflexivity..] | exact HB].
+  - destruct (st_conn s); [|discriminate].
+    inversion Hs; subst; clear Hs. split; [eapply inv3_same; [exact HI | reflexivity..] | exact HB].
+Qed.
+
+Lemma inv3_reach s : reach s -> inv3 s /\ inv3b s.
+Proof.
+  apply (@invariant_reachable _ _ step is_init (fun s => inv3 s /\ inv3b s)). split.
+  - intros s0 (c & conn & ->). split.
+    + split; [|split; [|split]]; simpl.
+      * intros id b H. destruct id; discriminate.
+      * reflexivity.
+      * intros ? ? [].
+      * intros ? [].
+    + intros id _. reflexivity.
+  - intros ? ? ? ? ?; eapply inv3_step; eauto.
+Qed.
+
+Lemma cnt_le1_unique {B} (l : list (nat * B)) id a b :
+  cnt (fstis id) l <= 1 -> In (id, a) l -> In (id, b) l -> a = b.
+Proof.
+  induction l as [|[i x] l IH]; intros H Ha Hb; [destruct Ha|].
+  rewrite cnt_cons in H. unfold fstis at 1 in H. simpl in H.
+  destruct Ha as [Ea|Ha], Hb as [Eb|Hb].
+  - congruence.
+  - inversion Ea; subst. rewrite Nat.eqb_refl in H. simpl in H.
+    assert (Z : cnt (fstis id) l = 0) by lia.
+    pose proof (proj1 (cnt_zero_forall _ _) Z _ Hb) as F. unfold fstis in F. simpl in F.
+    rewrite Nat.eqb_refl in F. discriminate.
+  - inversion Eb; subst. rewrite Nat.eqb_refl in H. simpl in H.
+    assert (Z : cnt (fstis id) l = 0) by lia.
+    pose proof (proj1 (cnt_zero_forall _ _) Z _ Ha) as F. unfold fstis in F. simpl in F.
+    rewrite Nat.eqb_refl in F. discriminate.
+  - apply IH; auto. lia.
+Qed.
+
+(** the peer puts at most one ACK packet on the wire per event, carrying the arguments of the
+    first call of that event's ack function *)
+Lemma one_reply_per_event s id :
+  reach s ->
+  cnt (fstis id) (st_psent s) <= 1
+  /\ (forall a, In (id, a) (st_psent s) -> first_call (st_plog s) id = Some a).
+Proof.
+  intros R. destruct (inv3_reach s R) as [(P1 & P2 & P3 & P4) _]. split; [|intros a; apply P3].
+  destruct (nth_error (psents s) id) as [b|] eqn:E.
+  - destruct (P1 id b E) as [C _]. rewrite C. destruct b; simpl; lia.
+  - apply nth_error_None in E. rewrite (P2 id E). lia.
+Qed.
+
+(** ** compliant peer, reliable network: the reply delivered is the peer's reply to that event *)
+Definition step_c (l : label) (s : state) : option state :=
+  match l with LPacketIn _ _ => None | _ => step l s end.
+
+Definition reach_c := reachable step_c is_init.
+
+Lemma step_c_step l s s' : step_c l s = Some s' -> step l s = Some s'.
+Proof. destruct l; simpl; try discriminate; auto. Qed.
+
+Lemma reach_c_reach s : reach_c s -> reach s.
+Proof.
+  intros R. induction R as [s I | s t s' _ IH St]; [unfold reach; apply reach_init; exact I|].
+  unfold reach. eapply reach_step; [exact IH | apply step_c_step; exact St].
+Qed.
+
+Definition carried (r : rpc) : option (nat * args) :=
+  match r with RLookup i a | RCall i a | RInvoke i a => Some (i, a) | RDone => None end.
+
+Definition inv4 (s : state) : Prop :=
+  (forall r x, In r (st_replies s) -> carried r = Some x -> In x (st_psent s))
+  /\ (forall id a, In (id, OReply a) (st_log s) -> In (id, a) (st_psent s)).
+
+Lemma inv4_same s s' :
+  inv4 s -> st_replies s' = st_replies s -> st_log s' = st_log s -> st_psent s' = st_psent s -> inv4 s'.
+Proof. unfold inv4. intros H A B C. rewrite A, B, C. exact H. Qed.
+
+Lemma inv4_step s l s' : reach s -> inv4 s -> step_c l s = Some s' -> inv4 s'.
+Proof.
+  intros RS HI Hs. destruct (inv3_reach s RS) as [(_ & _ & _ & P4) _].
+  destruct l as [tmo natt|natt| |id|id|id a|k|id a|k dk| | ]; simpl in Hs; try discriminate.
+  - inversion Hs; subst; clear Hs. eapply inv4_same; [exact HI | reflexivity..].
+  - destruct (send_frames s (frames_of None (st_npk s) natt)) as [s1|] eqn:E; [|discriminate].
+    inversion Hs; subst; clear Hs. unfold send_frames in E.
+    destruct (st_conn s || negb (c_client (st_cfg s))); [|destruct (st_bufmu s); [discriminate|]];
+      inversion E; subst; clear E; (eapply inv4_same; [exact HI | reflexivity..]).
+  - inversion Hs; subst; clear Hs. eapply inv4_same; [exact HI | reflexivity..].
+  - destruct (get_emit s id) as [e|] eqn:G; [|discriminate].
+    destruct (e_pc e) eqn:P; [| |discriminate].
+    + inversion Hs; subst; clear Hs. eapply inv4_same; [exact HI | reflexivity..].
+    + unfold send_frames in Hs.
+      destruct (st_conn s || negb (c_client (st_cfg s))); [|destruct (st_bufmu s); [discriminate|]];
+        inversion Hs; subst; clear Hs; (eapply inv4_same; [exact HI | reflexivity..]).
+  - destruct (get_emit s id) as [e|] eqn:G; [|discriminate].
+    destruct (e_timer e) eqn:T; try discriminate.
+    + destruct (e_called e); inversion Hs; subst; clear Hs; (eapply inv4_same; [exact HI | reflexivity..]).
+    + inversion Hs; subst; clear Hs. eapply inv4_same; [exact HI | reflexivity..].
+    + destruct (st_bufmu s); [discriminate|]. inversion Hs; subst; clear Hs. eapply inv4_same; [exact HI | reflexivity..].
+    + destruct (c_oldpurge (st_cfg s)); [destruct (purge_old id (st_buf s))|]; inversion Hs; subst; clear Hs;
+        (eapply inv4_same; [exact HI | reflexivity..]).
+    + inversion Hs; subst; clear Hs. eapply inv4_same; [exact HI | reflexivity..].
+    + inversion Hs; subst; clear Hs. destruct HI as [Q1 Q2]. split; simpl; [exact Q1|].
+      intros i a0 Hin. apply in_app_or in Hin as [Hin|[Hin|[]]]; [now apply Q2 | discriminate].
+  - destruct (get_emit s id) as [e|] eqn:G; [|discriminate].
+    destruct (onwire s id); [|discriminate].
+    destruct (e_psent e) eqn:P; inversion Hs; subst; clear Hs.
+    + eapply inv4_same; [exact HI | reflexivity..].
+    + destruct HI as [Q1 Q2]. split; simpl.
+      * intros r x Hr Hc. apply in_or_app; left. eapply Q1; eauto.
+      * intros i a0 Hin. apply in_or_app; left. now apply Q2.
+  - destruct (nth_error (st_inflight s) k) as [[id a]|] eqn:F; [|discriminate].
+    inversion Hs; subst; clear Hs. destruct HI as [Q1 Q2]. split; simpl; [|exact Q2].
+    intros r x Hr Hc. apply in_app_or in Hr as [Hr|[Hr|[]]]; [eapply Q1; eauto|].
+    subst r. simpl in Hc. inversion Hc; subst. apply P4. eapply nth_error_In; eauto.
+  - destruct (nth_error (st_replies s) k) as [r|] eqn:R; [|discriminate].
+    pose proof (nth_error_In _ _ R) as RIn. destruct HI as [Q1 Q2].
+    assert (K : forall r' s0, st_psent s0 = st_psent s -> st_log s0 = st_log s ->
+                 st_replies s0 = upd_nth k r' (st_replies s) ->
+                 (forall x, carried r' = Some x -> carried r = Some x) -> inv4 s0).
+    { intros r' s0 A B C D. split; rewrite A.
+      - intros r1 x Hr Hc. rewrite C in Hr. apply in_upd_nth in Hr as [->|Hr]; [|eapply Q1; eauto].
+        eapply Q1; [exact RIn | now apply D].
+      - rewrite B. exact Q2. }
+    destruct r as [id a|id a|id a|]; [| | |discriminate].
+    + destruct (get_emit s id) as [e|] eqn:G.
+      * destruct (e_intable e) eqn:IT; inversion Hs; subst; clear Hs.
+        -- eapply K; [reflexivity | reflexivity | reflexivity |]. destruct dk; simpl; [auto | discriminate].
+        -- eapply K; [reflexivity | reflexivity | reflexivity | simpl; discriminate].
+      * inversion Hs; subst; clear Hs. eapply K; [reflexivity | reflexivity | reflexivity | simpl; discriminate].
+    + destruct (get_emit s id) as [e|] eqn:G.
+      * destruct (e_timedOut e) eqn:TO; inversion Hs; subst; clear Hs.
+        -- eapply K; [reflexivity | reflexivity | reflexivity | simpl; discriminate].
+        -- eapply K; [reflexivity | reflexivity | reflexivity | simpl; auto].
+      * inversion Hs; subst; clear Hs. eapply K; [reflexivity | reflexivity | reflexivity | simpl; discriminate].
+    + inversion Hs; subst; clear Hs. split; simpl.
+      * intros r1 x Hr Hc. apply in_upd_nth in Hr as [->|Hr]; [discriminate | eapply Q1; eauto].
+      * intros i a0 Hin. apply in_app_or in Hin as [Hin|[Hin|[]]]; [now apply Q2|].
+        inversion Hin; subst. eapply Q1; [exact RIn | reflexivity].
+  - destruct (st_conn s); [discriminate|]. destruct (st_bufmu s) eqn:M; [discriminate|].
+    inversion Hs; subst; clear Hs. eapply inv4_same; [exact HI | reflexivity..].
+  - destruct (st_conn s); [|discriminate].
+    inversion Hs; subst; clear Hs. eapply inv4_same; [exact HI | reflexivity..].
+Qed.
+
+Lemma inv4_reach s : reach_c s -> inv4 s.
+Proof.
+  intros R. induction R as [s (c & conn & ->) | s t s' R IH St].
+  - split; simpl; intros; contradiction.
+  - eapply inv4_step; [apply reach_c_reach; exact R | exact IH | exact St].
+Qed.
+
+(** the arguments the callback of [id] got are those of the first call of the ack function of the
+    event that carried [id] (an event that was really handed to the transport) *)
+Lemma reply_matches_event s id a :
+  reach_c s -> In (OReply a) (outcomes s id) ->
+  first_call (st_plog s) id = Some a /\ In (id, a) (st_psent s).
+Proof.
+  intros R Hin. destruct (inv4_reach s R) as [_ Q2].
+  destruct (inv3_reach s (reach_c_reach s R)) as [(_ & _ & P3 & _) _].
+  assert (L : In (id, OReply a) (st_log s)).
+  { unfold outcomes in Hin. apply in_map_iff in Hin as ([i o] & E & Hf). simpl in E. subst o.
+    apply filter_In in Hf as [Hf Hi]. simpl in Hi. apply Nat.eqb_eq in Hi. now subst. }
+  specialize (Q2 id a L). split; [now apply P3 | exact Q2].
+Qed.
